@@ -2,4 +2,4 @@ From Coq Require Import Extraction ExtrOcamlBasic.
 From BV Require Import lib.ExtractBase lib.Ints gen.Params_gen model.Script model.ScriptVerify.
 Extraction "model.ml" extract_base eval_script_state eval_script stub_checker num_encode num_decode num_minimal
   script_num cast_to_bool parse_script find_and_delete push_encoding check_signature_encoding check_pubkey_encoding
-  verify_script flags_valid is_push_only witness_program is_pay_to_script_hash.
+  verify_script execute_witness_script verify_taproot flags_valid is_push_only witness_program is_pay_to_script_hash.
